@@ -5,13 +5,14 @@
     state; run any prefix of the operations of [update_rrdp_files]. The notification file then
     holds either exactly what it held before or the complete new notification, and what it holds
     names only files present with the stated hashes. Side conditions, all explicit:
-      - [WritesSafe]: the files about to be written are absent, empty, or already hold that
-        content (they are new paths: fresh random component, new serial; or a retry);
+      - [PlannedFresh]: the files about to be written are not among those the old notification
+        names (they are new paths: other serial, fresh random component);
       - [NotAhead]: the old notification is not ahead of the state (candidate F11d);
       - the old notification has the layout this code produces ([NotifWf]; preserved);
       - the retained deltas are contiguous ([deltas_contiguous] of RrdpProofs.v).
-    Without [WritesSafe] for new-notification.xml the statement is false:
-    [stale_new_notification_corrupts] (finding F11g). *)
+    Before commit 861388f0 files were opened without truncation; then a stale longer
+    new-notification.xml corrupted the next notification: [stale_new_notification_corrupts]
+    (finding F11g, fixed; the witness is about the pinned procedure). *)
 From KV Require Import base.Tac pubd.Objects pubd.ObjectsProofs pubd.Staged pubd.Access pubd.Content
   pubd.Rrdp pubd.RrdpProofs pubd.Fs pubd.FsProofs pubd.RrdpFiles.
 Open Scope N_scope.
@@ -57,114 +58,64 @@ Proof.
   simpl in Ho. destruct Ho as [<-|[<-|[<-|[]]]]; auto.
 Qed.
 
-(** What one operation of a save sequence for [(p, c)] does to file look-ups. *)
-Lemma save_op_effect o p c f f' :
+(** An operation of the save sequence for [(p, c)] leaves every other file alone. *)
+Lemma save_op_frame o p c f f' :
   (o = OMkParents p \/ o = OCreateFile p \/ o = OWrite p c) -> p <> [] -> exec o f = Some f' ->
-  (forall q, q <> p -> fs_file q f' = fs_file q f)
-  /\ (fs_file p f' = fs_file p f
-      \/ (fs_file p f = None /\ fs_file p f' = Some CEmpty)
-      \/ (exists old, fs_file p f = Some old /\ fs_file p f' = Some (overlay old c))).
+  forall q, q <> p -> fs_file q f' = fs_file q f.
 Proof.
-  intros [ -> | [ -> | -> ] ] Hp H; simpl in H.
-  - split; [intros q _; eapply mk_parents_file; eassumption|left; eapply mk_parents_file; eassumption].
-  - destruct (create_file_get p f f' p H Hp) as [_ [c0 [G [G1|[G1 ->]]]]].
-    + split; [intros q Hq; unfold fs_file; rewrite (proj1 (create_file_get p f f' q H Hp) Hq); reflexivity|].
-      left. unfold fs_file. rewrite G, G1. reflexivity.
-    + split; [intros q Hq; unfold fs_file; rewrite (proj1 (create_file_get p f f' q H Hp) Hq); reflexivity|].
-      right. left. unfold fs_file. rewrite G, G1. auto.
-  - destruct (write_file_get p c f f' p H Hp) as [_ [old [G1 G2]]].
-    split; [intros q Hq; unfold fs_file; rewrite (proj1 (write_file_get p c f f' q H Hp) Hq); reflexivity|].
-    right. right. exists old. split; [exact G1|]. unfold fs_file. rewrite G2. reflexivity.
+  intros [ -> | [ -> | -> ] ] Hp H q Hq.
+  - rewrite exec_mkparents in H. eapply mk_parents_file; eassumption.
+  - rewrite exec_create in H. unfold fs_file. rewrite (proj1 (create_file_get p f f' q H Hp) Hq). reflexivity.
+  - rewrite exec_write in H. unfold fs_file. rewrite (proj1 (write_file_get p c f f' q H Hp) Hq). reflexivity.
 Qed.
 
 Definition PathsOk (W : list (path * fcontent)) : Prop :=
-  NoDup (map fst W) /\ forall p c, In (p, c) W -> p <> [] /\ c <> CEmpty.
+  NoDup (map fst W) /\ forall p c, In (p, c) W -> p <> [].
 
-Lemma w_functional (W : list (path * fcontent)) p c c' : NoDup (map fst W) -> In (p, c) W -> In (p, c') W -> c = c'.
-Proof.
-  induction W as [|[p0 c0] W IH]; intros Hn H1 H2; [destruct H1|]. simpl in Hn. inv Hn.
-  destruct H1 as [H1|H1], H2 as [H2|H2].
-  - congruence.
-  - inv H1. exfalso. apply H3. apply (in_map fst) in H2. exact H2.
-  - inv H2. exfalso. apply H3. apply (in_map fst) in H1. exact H1.
-  - auto.
-Qed.
-
-(** The invariant of the save phase relative to the starting tree [f0]. *)
+(** The invariant of the save phase relative to the starting tree [f0]: nothing but the planned
+    files changes. *)
 Definition SaveInv (W : list (path * fcontent)) (f0 f : fs) : Prop :=
-  (forall q, ~ In q (map fst W) -> fs_file q f = fs_file q f0)
-  /\ (forall p c, In (p, c) W -> slot_ok f p c)
-  /\ (forall p c, In (p, c) W -> fs_file p f0 = Some c -> fs_file p f = Some c).
+  forall q, ~ In q (map fst W) -> fs_file q f = fs_file q f0.
 
 Lemma saveinv_step W f0 o f f' :
   PathsOk W -> In o (saves W) -> SaveInv W f0 f -> exec o f = Some f' -> SaveInv W f0 f'.
 Proof.
-  intros [Hn Hp] Hin [I1 [I2 I3]] He. destruct (in_saves _ _ Hin) as [p [c [Hw Ho]]].
-  destruct (Hp _ _ Hw) as [Hpne Hce].
-  destruct (save_op_effect _ _ _ _ _ Ho Hpne He) as [Fr Ef].
-  split; [|split].
-  - intros q Hq. rewrite Fr; [apply I1; exact Hq|]. intros ->. apply Hq. apply (in_map fst) in Hw. exact Hw.
-  - intros p' c' Hw'. destruct (path_eq_dec p' p) as [->|Hne].
-    + assert (c' = c) by (eapply w_functional; eassumption). subst c'.
-      specialize (I2 _ _ Hw). unfold slot_ok in *.
-      destruct Ef as [E|[[E1 E2]|[old [E1 E2]]]].
-      * rewrite E. exact I2.
-      * right. left. exact E2.
-      * right. right. rewrite E2. rewrite E1 in I2. destruct I2 as [I2|[I2|I2]]; [discriminate| |].
-        -- inv I2. reflexivity.
-        -- inv I2. rewrite overlay_same. reflexivity.
-    + unfold slot_ok. rewrite (Fr _ Hne). apply I2. exact Hw'.
-  - intros p' c' Hw' H0. destruct (path_eq_dec p' p) as [->|Hne].
-    + assert (c' = c) by (eapply w_functional; eassumption). subst c'.
-      specialize (I3 _ _ Hw H0).
-      destruct Ef as [E|[[E1 E2]|[old [E1 E2]]]].
-      * rewrite E. exact I3.
-      * congruence.
-      * rewrite E2. rewrite I3 in E1. inv E1. rewrite overlay_same. reflexivity.
-    + rewrite (Fr _ Hne). apply I3; assumption.
+  intros [Hn Hp] Hin I1 He. destruct (in_saves _ _ Hin) as [p [c [Hw Ho]]].
+  intros q Hq. rewrite (save_op_frame _ _ _ _ _ Ho (Hp _ _ Hw) He); [apply I1; exact Hq|].
+  intros ->. apply Hq. apply (in_map fst) in Hw. exact Hw.
 Qed.
 
-Lemma saveinv_init W f0 : (forall p c, In (p, c) W -> slot_ok f0 p c) -> SaveInv W f0 f0.
-Proof. intros H. split; [reflexivity|]. split; [exact H|auto]. Qed.
+Lemma saveinv_init W f0 : SaveInv W f0 f0.
+Proof. intros q _. reflexivity. Qed.
 
-(** When the whole phase has succeeded every planned file holds its content. *)
+(** When the whole phase has succeeded every planned file holds its content: it was emptied
+    when it was opened and then written. *)
 Lemma saves_done W : forall f,
-  PathsOk W -> (forall p c, In (p, c) W -> slot_ok f p c) -> snd (run (saves W) f) = true ->
+  PathsOk W -> snd (run (saves W) f) = true ->
   forall p c, In (p, c) W -> fs_file p (fst (run (saves W) f)) = Some c.
 Proof.
-  induction W as [|[p0 c0] W IH]; intros f [Hn Hp] Hs Hok p c Hin; [destruct Hin|].
+  induction W as [|[p0 c0] W IH]; intros f [Hn Hp] Hok p c Hin; [destruct Hin|].
   simpl in Hn. inv Hn.
-  destruct (Hp p0 c0 (or_introl eq_refl)) as [Hp0 Hc0].
-  change (saves ((p0, c0) :: W)) with ([OMkParents p0; OCreateFile p0; OWrite p0 c0] ++ saves W) in *.
-  cbn [app run exec best_effort] in *.
-  destruct (mk_parents p0 f) as [f1|] eqn:E1; [|discriminate].
-  destruct (create_file p0 f1) as [f2|] eqn:E2; [|discriminate].
-  destruct (write_file p0 c0 f2) as [f3|] eqn:E3; [|discriminate].
-  (* the slot of p0 after the three operations *)
+  pose proof (Hp p0 c0 (or_introl eq_refl)) as Hp0.
+  change (saves ((p0, c0) :: W)) with (OMkParents p0 :: OCreateFile p0 :: OWrite p0 c0 :: saves W) in *.
+  rewrite run_cons, exec_mkparents in *.
+  destruct (mk_parents p0 f) as [f1|] eqn:E1; [|discriminate Hok].
+  rewrite run_cons, exec_create in *.
+  destruct (create_file p0 f1) as [f2|] eqn:E2; [|discriminate Hok].
+  rewrite run_cons, exec_write in *.
+  destruct (write_file p0 c0 f2) as [f3|] eqn:E3; [|discriminate Hok].
   assert (F3 : fs_file p0 f3 = Some c0).
   { destruct (write_file_get p0 c0 f2 f3 p0 E3 Hp0) as [_ [old [G1 G2]]].
-    unfold fs_file at 1. rewrite G2. f_equal.
-    destruct (create_file_get p0 f1 f2 p0 E2 Hp0) as [_ [cc [G3 G4]]].
-    apply fs_file_get in G3. rewrite G3 in G1. inv G1.
-    assert (S0 : slot_ok f p0 c0) by (apply Hs; left; reflexivity).
-    unfold slot_ok in S0. rewrite <- (mk_parents_file p0 f f1 p0 E1) in S0.
-    destruct G4 as [G4|[G4 ->]]; [|reflexivity].
-    apply fs_file_get in G4. rewrite G4 in S0. destruct S0 as [S0|[S0|S0]]; [discriminate|inv S0; reflexivity|inv S0; apply overlay_same]. }
-  assert (Fr : forall q, q <> p0 -> fs_file q f3 = fs_file q f).
-  { intros q Hq. unfold fs_file.
-    rewrite (proj1 (write_file_get p0 c0 f2 f3 q E3 Hp0) Hq), (proj1 (create_file_get p0 f1 f2 q E2 Hp0) Hq).
-    fold (fs_file q f1). fold (fs_file q f). eapply mk_parents_file; eassumption. }
-  assert (PW : PathsOk W) by (split; [assumption|intros; apply Hp; right; assumption]).
-  assert (SW : forall p c, In (p, c) W -> slot_ok f3 p c).
-  { intros p' c' Hw. unfold slot_ok. rewrite Fr; [apply Hs; right; exact Hw|].
-    intros ->. apply H1. apply (in_map fst) in Hw. exact Hw. }
+    unfold fs_file at 1. rewrite G2.
+    destruct (create_file_get p0 f1 f2 p0 E2 Hp0) as [_ G3].
+    apply fs_file_get in G3. rewrite G3 in G1. inv G1. reflexivity. }
+  assert (PW : PathsOk W) by (split; [assumption|intros; eapply Hp; right; eassumption]).
   destruct Hin as [Hin|Hin].
   - inv Hin.
     assert (G : fs_file p (fst (run (saves W) f3)) = fs_file p f3).
     { apply (run_inv (fun g => fs_file p g = fs_file p f3)); [|reflexivity].
       intros o g g' Ho Hg He. destruct (in_saves _ _ Ho) as [p' [c' [Hw Hk]]].
-      destruct (Hp p' c' (or_intror Hw)) as [Hp' _].
-      destruct (save_op_effect _ _ _ _ _ Hk Hp' He) as [Fr' _]. rewrite Fr'; [exact Hg|].
+      rewrite (save_op_frame _ _ _ _ _ Hk (Hp p' c' (or_intror Hw)) He); [exact Hg|].
       intros ->. apply H1. apply (in_map fst) in Hw. exact Hw. }
     rewrite G. exact F3.
   - apply IH; assumption.
@@ -345,8 +296,8 @@ Lemma cleanup_keeps f0 r archive o f f' q :
 Proof.
   intros Hin He Hk Hnf. pose proof (keep_nonempty _ _ Hk) as Hq.
   destruct (cleanup_op_cases _ _ _ _ Hin) as [->|[[n [-> Hn]]|[[n [Ho Hc]]|[s [-> Hs]]]]].
-  - discriminate.
-  - cbn [exec] in He. apply remove_tree_inv in He. destruct He as [_ [Hd ->]].
+  - rewrite exec_fail in He. discriminate.
+  - rewrite exec_remove_tree in He. apply remove_tree_inv in He. destruct He as [_ [Hd ->]].
     apply file_remove_under; [exact Hq|].
     destruct Hk as [->|[->|[s [rnd [-> _]]]]]; simpl.
     + destruct (name_eqb n NNotif) eqn:E; [|reflexivity]. apply name_eqb_spec in E. subst n.
@@ -361,10 +312,10 @@ Proof.
         apply name_eqb_spec in E. subst n. destruct Ho as [Ho _]. congruence.
       - rewrite ?N.eqb_refl. simpl. destruct (name_eqb n (NSer s)) eqn:E; [|reflexivity].
         apply name_eqb_spec in E. subst n. destruct Ho as [_ Ho]. lia. }
-    destruct Hc as [->|[->|[dst [-> Hdst]]]]; cbn [exec] in He.
-    + apply remove_tree_inv in He. destruct He as [_ [_ ->]]. apply file_remove_under; assumption.
-    + apply remove_file_inv in He. destruct He as [_ ->]. apply file_remove_under; assumption.
-    + destruct (mkdir_all dst f) as [f1|] eqn:E1; [|discriminate].
+    destruct Hc as [->|[->|[dst [-> Hdst]]]].
+    + rewrite exec_remove_tree in He. apply remove_tree_inv in He. destruct He as [_ [_ ->]]. apply file_remove_under; assumption.
+    + rewrite exec_remove_file in He. apply remove_file_inv in He. destruct He as [_ ->]. apply file_remove_under; assumption.
+    + rewrite exec_archive in He. destruct (mkdir_all dst f) as [f1|] eqn:E1; [|discriminate].
       rewrite <- (mkdir_all_file dst f f1 q E1). unfold fs_file.
       assert (Hd : exists t, dst = NArchive :: t).
       { destruct dst as [|a t]; [discriminate|]. simpl in Hdst. destruct a; try discriminate. eauto. }
@@ -374,7 +325,7 @@ Proof.
       assert (Hnd : under (NArchive :: t) q = false).
       { destruct Hk as [->|[->|[s [rnd [-> _]]]]]; reflexivity. }
       rewrite Hnd. reflexivity.
-  - cbn [exec] in He. destruct (find_snapshot_in (sess_dir (r_session r)) s f) as [q0|] eqn:Ef; [|inv He; reflexivity].
+  - rewrite exec_rmsnap in He. destruct (find_snapshot_in (sess_dir (r_session r)) s f) as [q0|] eqn:Ef; [|inv He; reflexivity].
     apply remove_file_inv in He. destruct He as [_ ->].
     unfold find_snapshot_in in Ef. destruct (find _ f) as [e|] eqn:Efi; [|discriminate]. inv Ef.
     apply find_some in Efi. destruct Efi as [_ Hsn]. apply andb_true_iff in Hsn. destruct Hsn as [Hsn _].
@@ -421,9 +372,9 @@ Proof.
     + intros p H1 H2. apply in_map_iff in H1. destruct H1 as [d [<- _]].
       destruct H2 as [H2|[H2|[]]]; discriminate.
   - intros p c Hin. apply in_app_iff in Hin. destruct Hin as [Hin|[Hin|[Hin|[]]]].
-    + apply in_map_iff in Hin. destruct Hin as [d [E _]]. inv E. split; discriminate.
-    + inv Hin. split; discriminate.
-    + inv Hin. split; discriminate.
+    + apply in_map_iff in Hin. destruct Hin as [d [E _]]. inv E. discriminate.
+    + inv Hin. discriminate.
+    + inv Hin. discriminate.
 Qed.
 
 Lemma notif_not_planned old r : ~ In notif_path (map fst (planned old r)).
@@ -440,29 +391,26 @@ Proof. unfold read_notif. intros ->. reflexivity. Qed.
 
 Section Update.
   Variables (f0 : fs) (r : rrdp) (archive : bool).
-  Let old := read_notif f0.
-  Let W := planned old r.
-  Let nw := new_notif old r.
+  Local Notation old := (read_notif f0).
+  Local Notation W := (planned (read_notif f0) r).
+  Local Notation nw := (new_notif (read_notif f0) r).
   Hypothesis Hok : NotifOk f0.
   Hypothesis Hwf : forall m, old = Some m -> NotifWf m.
   Hypothesis Hna : NotAhead old r.
-  Hypothesis Hws : WritesSafe f0 old r.
+  Hypothesis Hfr : PlannedFresh old r.
   Hypothesis Hc : contig (r_serial r) (r_deltas r).
 
-  Let HP : PathsOk W := planned_paths_ok old r Hc.
+  Local Notation HP := (planned_paths_ok old r Hc).
 
   (** References of the old notification survive the save phase. *)
   Lemma old_refs_preserved f n : SaveInv W f0 f -> old = Some n -> NotifOkN f n.
   Proof.
-    intros [I1 [I2 I3]] En p d Hin.
+    intros I1 En p d Hin.
     assert (H0 : fs_file p f0 = Some (CData d)).
-    { unfold NotifOk in Hok. fold old in Hok. rewrite En in Hok. apply Hok. exact Hin. }
-    destruct (in_dec path_eq_dec p (map fst W)) as [Hi|Hi].
-    - apply in_map_iff in Hi. destruct Hi as [[p' c] [Ep Hw]]. simpl in Ep. subst p'.
-      assert (c = CData d).
-      { destruct (Hws p c Hw) as [S|[S|S]]; rewrite H0 in S; [discriminate|discriminate|inv S; reflexivity]. }
-      subst c. apply (I3 _ _ Hw). exact H0.
-    - rewrite I1 by exact Hi. exact H0.
+    { unfold NotifOk in Hok. rewrite En in Hok. apply Hok. exact Hin. }
+    rewrite I1; [exact H0|].
+    intros Hi. apply in_map_iff in Hi. destruct Hi as [[p' c] [Ep Hw]]. simpl in Ep. subst p'.
+    pose proof Hfr as Hf. unfold PlannedFresh in Hf. revert Hf Hw. rewrite En. intros Hf Hw. apply (Hf p c d Hw Hin).
   Qed.
 
   (** Every state of the save phase is good. *)
@@ -470,11 +418,12 @@ Section Update.
     NotifOk f /\ (forall m, read_notif f = Some m -> NotifWf m) /\ fs_file notif_path f = fs_file notif_path f0.
   Proof.
     intros HI. assert (En : fs_file notif_path f = fs_file notif_path f0).
-    { destruct HI as [I1 _]. apply I1. apply notif_not_planned. }
+    { apply HI. apply notif_not_planned. }
     assert (Er : read_notif f = old) by (apply read_notif_ext; exact En).
     split; [|split; [rewrite Er; exact Hwf|exact En]].
-    unfold NotifOk. rewrite Er. destruct old as [n|] eqn:Eo; [|exact I].
-    apply old_refs_preserved; [exact HI|reflexivity].
+    pose proof (old_refs_preserved f) as Hp.
+    unfold NotifOk. rewrite Er. destruct (read_notif f0) as [n|] eqn:Eo; [|exact I].
+    apply Hp; [exact HI|reflexivity].
   Qed.
 
   Lemma K_good f : Kinv nw f ->
@@ -497,14 +446,14 @@ Section Update.
     split.
     - unfold fs_file. rewrite G by discriminate. cbn [under notif_path name_eqb andb skipn app].
       assert (Hn : fs_file newnotif_path fA = Some (CNotif nw)).
-      { apply Hdone. unfold W, planned. apply in_app_iff. right. right. left. reflexivity. }
+      { apply Hdone. unfold planned. apply in_app_iff. right. right. left. reflexivity. }
       apply fs_file_get in Hn. change (newnotif_path ++ []) with newnotif_path. rewrite Hn. reflexivity.
     - intros p d Hin.
       assert (Hk : Keep r p) by (eapply new_notif_refs_keep; eassumption).
       assert (Hu : under notif_path p = false /\ under newnotif_path p = false /\ p <> []).
       { destruct Hk as [->|[->|[s [rnd [-> _]]]]].
         - (* the notification does not list itself *)
-          exfalso. unfold refs, nw, new_notif in Hin. cbn [n_snap n_deltas] in Hin.
+          exfalso. unfold refs, new_notif in Hin. cbn [n_snap n_deltas] in Hin.
           destruct Hin as [Hin|Hin]; [discriminate|].
           apply in_map_iff in Hin. destruct Hin as [x [Ex Hx]]. inv Ex.
           assert (Hk' : Keep r (dr_path x)).
@@ -514,12 +463,12 @@ Section Update.
         - repeat split; discriminate. }
       destruct Hu as [U1 [U2 Hp]]. unfold fs_file. rewrite (G p Hp), U1, U2. fold (fs_file p fA).
       (* written now, or listed by the old notification *)
-      unfold refs, nw, new_notif in Hin. cbn [n_snap n_deltas] in Hin.
+      unfold refs, new_notif in Hin. cbn [n_snap n_deltas] in Hin.
       destruct Hin as [Hin|Hin].
-      + inv Hin. apply Hdone. unfold W, planned. apply in_app_iff. right. left. reflexivity.
+      + inv Hin. apply Hdone. unfold planned. apply in_app_iff. right. left. reflexivity.
       + apply in_map_iff in Hin. destruct Hin as [x [Ex Hx]]. inv Ex.
         apply in_app_iff in Hx. destruct Hx as [Hx|Hx].
-        * apply in_map_iff in Hx. destruct Hx as [dd [<- Hd]]. apply Hdone. unfold W, planned. apply in_app_iff. left.
+        * apply in_map_iff in Hx. destruct Hx as [dd [<- Hd]]. apply Hdone. unfold planned. apply in_app_iff. left.
           apply in_map_iff. exists dd. split; [reflexivity|exact Hd].
         * apply in_rev in Hx. destruct (reusable_in _ _ _ Hx) as [n [En [_ [Hn _]]]].
           apply (old_refs_preserved fA n HI En). unfold refs. right. apply in_map_iff. exists x. split; [reflexivity|exact Hn].
@@ -540,13 +489,13 @@ Section Update.
     NotifOk f' /\ (forall m, read_notif f' = Some m -> NotifWf m)
     /\ (fs_file notif_path f' = fs_file notif_path f0 \/ fs_file notif_path f' = Some (CNotif nw)).
   Proof.
-    unfold update_rrdp_files. fold old. destruct (up_to_date old r).
+    unfold update_rrdp_files. destruct (up_to_date old r).
     { intros [n ->]. rewrite firstn_nil. simpl. split; [exact Hok|]. split; [exact Hwf|left; reflexivity]. }
-    unfold write_ops. fold W. fold (saves W).
-    assert (I0 : SaveInv W f0 f0) by (apply saveinv_init; exact Hws).
+    unfold write_ops. fold (saves W).
+    assert (I0 : SaveInv W f0 f0) by apply saveinv_init.
     assert (IA : forall f, reach (saves W) f0 f -> SaveInv W f0 f).
     { intros f Hr. eapply (reach_inv (SaveInv W f0)); [|exact I0|exact Hr].
-      intros o g g' Ho Hg He. eapply saveinv_step; eassumption. }
+      intros o g g' Ho Hg He. exact (saveinv_step _ f0 o g g' HP Ho Hg He). }
     assert (good_of_save : forall f, SaveInv W f0 f ->
       NotifOk f /\ (forall m, read_notif f = Some m -> NotifWf m)
       /\ (fs_file notif_path f = fs_file notif_path f0 \/ fs_file notif_path f = Some (CNotif nw))).
@@ -561,20 +510,20 @@ Section Update.
     - (* within the writes and the switch *)
       apply reach_app in Hr. destruct Hr as [Hr|[Hsv Hr]]; [apply good_of_save; apply IA; exact Hr|].
       fold fA in Hr. destruct Hr as [n ->]. destruct n as [|n]; [apply good_of_save; exact IfA|].
-      cbn [firstn]. rewrite firstn_nil. cbn [run exec best_effort].
+      cbn [firstn]. rewrite firstn_nil. rewrite run_cons, run_nil, exec_rename. cbn [best_effort].
       destruct (rename newnotif_path notif_path fA) as [fB|] eqn:Er; cbn [fst]; [|apply good_of_save; exact IfA].
       apply good_of_K. eapply switch_establishes_K; [exact IfA| |exact Er].
-      apply saves_done; [exact HP|exact Hws|exact Hsv].
+      apply saves_done; [exact HP|exact Hsv].
     - (* within the clean-up *)
       rewrite run_app in Hmain. fold fA in Hmain.
       destruct (snd (run (saves W) f0)) eqn:Hsv; [|discriminate].
-      cbn [run exec best_effort] in Hmain.
+      rewrite run_cons, run_nil, exec_rename in Hmain. cbn [best_effort] in Hmain.
       destruct (rename newnotif_path notif_path fA) as [fB|] eqn:Er; [|discriminate].
       assert (EB : fst (run (saves W ++ [ORename newnotif_path notif_path true]) f0) = fB).
-      { rewrite run_app. fold fA. rewrite Hsv. cbn [run exec best_effort]. rewrite Er. reflexivity. }
+      { rewrite run_app. fold fA. rewrite Hsv. rewrite run_cons, run_nil, exec_rename, Er. reflexivity. }
       rewrite EB in Hr.
       assert (KB : Kinv nw fB).
-      { eapply switch_establishes_K; [exact IfA| |exact Er]. apply saves_done; [exact HP|exact Hws|exact Hsv]. }
+      { eapply switch_establishes_K; [exact IfA| |exact Er]. apply saves_done; [exact HP|exact Hsv]. }
       apply good_of_K. eapply (reach_inv (Kinv nw)); [|exact KB|exact Hr].
       intros o g g' Ho Hg He. eapply cleanup_preserves_K; eassumption.
   Qed.
@@ -583,11 +532,11 @@ End Update.
 (** [files_consistent_at_every_prefix]: for EVERY cut point [n] of the operations of an update. *)
 Theorem files_consistent_at_every_prefix f0 r archive n :
   NotifOk f0 -> (forall m, read_notif f0 = Some m -> NotifWf m) -> NotAhead (read_notif f0) r ->
-  WritesSafe f0 (read_notif f0) r -> contig (r_serial r) (r_deltas r) ->
+  PlannedFresh (read_notif f0) r -> contig (r_serial r) (r_deltas r) ->
   let f' := fst (run (firstn n (update_rrdp_files f0 r archive)) f0) in
   NotifOk f' /\ (forall m, read_notif f' = Some m -> NotifWf m)
   /\ (fs_file notif_path f' = fs_file notif_path f0
       \/ fs_file notif_path f' = Some (CNotif (new_notif (read_notif f0) r))).
 Proof.
-  intros Hok Hwf Hna Hws Hc f'. apply (files_consistent_reach f0 r archive Hok Hwf Hna Hws Hc). exists n. reflexivity.
+  intros Hok Hwf Hna Hfr Hc f'. apply (files_consistent_reach f0 r archive Hok Hwf Hna Hfr Hc). exists n. reflexivity.
 Qed.
